@@ -19,6 +19,14 @@ Proof. rewrite lenN_length, firstn_length. lia. Qed.
 Lemma lenN_firstn_le' (b : bytes) n : lenN (firstn (N.to_nat n) b) <= lenN b.
 Proof. rewrite !lenN_length, firstn_length. lia. Qed.
 
+(* lengths of the pieces of a tag, by computation (robust against refactoring in Model/Flv.v) *)
+Lemma tag_header_len tg : lenN (MF.mux_tag_header tg) = 11.
+Proof. reflexivity. Qed.
+Lemma tag_trailer_len tg : lenN (MF.mux_tag_trailer tg) = 4.
+Proof. reflexivity. Qed.
+Lemma file_header_len hv ha : lenN (MF.mux_header hv ha) = 13.
+Proof. reflexivity. Qed.
+
 (* ---------- what the session must return when k bytes arrive ---------- *)
 Fixpoint flv_expect_tags (tags : list MF.tag) (k : N) : list flv_item :=
   match tags with
@@ -155,9 +163,9 @@ Section FlvRead.
         rewrite (flv_via_short _ st 11 _ t Hi Hf)
           by (pose proof (lenN_firstn (MF.mux_tag_header tg ++ MF.t_body tg ++ MF.mux_tag_trailer tg ++ concat (map PF.tag_bytes r)) k); lia).
         now rewrite frev_rev, app_nil_r.
-      + rewrite firstn_app_ge in Hf by (rewrite PF.lenN_mux_tag_header; exact H1).
-        rewrite PF.lenN_mux_tag_header in Hf.
-        destruct (flv_via_ok MF.parse_tag_header st 11 _ _ t _ Hi Hf (PF.lenN_mux_tag_header tg)
+      + rewrite firstn_app_ge in Hf by (rewrite tag_header_len; exact H1).
+        rewrite tag_header_len in Hf.
+        destruct (flv_via_ok MF.parse_tag_header st 11 _ _ t _ Hi Hf (tag_header_len tg)
                     (PF.parse_mux_tag_header tg Hwt)) as (s1 & H1' & F1 & I1).
         unfold flv_read_tag_header. rewrite H1'. fold l.
         assert (Hu : u32 (l + 4) = l + 4) by (unfold u32; apply N.mod_small; lia).
@@ -170,12 +178,12 @@ Section FlvRead.
         * (* the whole tag arrived *)
           rewrite app_assoc in F1.
           rewrite firstn_app_ge in F1
-            by (rewrite lenN_app; unfold MF.mux_tag_trailer; rewrite PF.lenN_be4; fold l; lia).
+            by (rewrite lenN_app, tag_trailer_len; fold l; lia).
           assert (Hbt : lenN (MF.t_body tg ++ MF.mux_tag_trailer tg) = l + 4)
-            by (rewrite lenN_app; unfold MF.mux_tag_trailer; rewrite PF.lenN_be4; reflexivity).
+            by (rewrite lenN_app, tag_trailer_len; reflexivity).
           rewrite Hbt in F1.
           destruct (flv_via_ok MF.strip_pts s1 (l + 4) _ _ t _ I1 F1 Hbt
-                      (PF.strip_pts_ok _ _ (PF.lenN_be4 _))) as (s2 & H2' & F2 & I2).
+                      (PF.strip_pts_ok _ _ (tag_trailer_len tg))) as (s2 & H2' & F2 & I2).
           rewrite H2'.
           replace (k - 11 - (l + 4)) with (k - (15 + l)) in F2 by lia.
           rewrite (IH fuel s2 _ (k - (15 + l)) t Hwr ltac:(cbn in Hfuel; lia) I2 F2).
@@ -194,7 +202,7 @@ Section FlvRead.
       rewrite (flv_via_short _ st 13 _ t Hi Hf)
         by (pose proof (lenN_firstn (MF.mux_header hv ha ++ concat (map PF.tag_bytes tags)) k); lia).
       reflexivity.
-    - assert (Hh : lenN (MF.mux_header hv ha) = 13) by reflexivity.
+    - pose proof (file_header_len hv ha) as Hh.
       rewrite firstn_app_ge in Hf by (rewrite Hh; exact H). rewrite Hh in Hf.
       destruct (flv_via_ok MF.parse_header st 13 _ _ t _ Hi Hf Hh (PF.parse_mux_header hv ha))
         as (s1 & H1 & F1 & I1).
